@@ -27,7 +27,7 @@ for pid,p in props.items():
         prevtxt="Earlier rounds already produced the following seeded changes for this property; yours must use DIFFERENT mechanisms, functions and ideas (do not repeat or vary these):\n"+"\n".join(prev)+"\n\n"
     txt=f"""You are helping test a verification effort for the Go library couchbase/moss (an embeddable ordered key-value store: stack of immutable sorted segments, background merger/persister, append-only mmap'd file store with compaction).
 
-You have your OWN scratch git worktree of the library at {d} (detached HEAD of the current source). Work ONLY inside {d} . Do NOT read, list or modify /repo or /verif or any other /tmp/seed*/ directory - your work must be independent of anything there.
+You have your OWN scratch git worktree of the library at {d} (detached HEAD of the current source). Work ONLY inside {d} . Do NOT read, list or modify /repo or /verif or any other /tmp/seed*/ directory - your work must be independent of anything there. Never use `git stash` (the stash is shared between all worktrees of the repository): use `git diff > file`, `git checkout -- .` and `git apply file` instead.
 
 Environment: the sandbox has NO network. For every shell call use:
   export GOFLAGS=-mod=mod GOPROXY=off GOSUMDB=off GOTOOLCHAIN=local
@@ -58,7 +58,7 @@ At the end, restore your worktree to the unchanged HEAD (`git checkout -- . && g
 
 {prevtxt}Note: a few tests of the existing suite (TestStoreCollHistograms, Test_IdleCompactionThrottle, TestStoreCompactionDeletions) can be flaky under machine load even on unchanged source; rerun once if only those fail. Never use pkill/killall by name (other agents run the same test binary); kill only your own PIDs.
 
-Work efficiently: read the relevant source first, pick your two changes, then verify. If after a serious attempt you can only produce one verified change, deliver that one and explain in out/NOTES.txt. Your final message should briefly list what you delivered.
+You have about 35 minutes in total: work efficiently, read the relevant source first, pick your two changes, then verify. If after a serious attempt you can only produce one verified change, deliver that one and explain in out/NOTES.txt. Your final message should briefly list what you delivered.
 """
     open(f"{rd}/prompt_{pid}.txt",'w').write(txt)
     print(pid, len(prev))
